@@ -968,6 +968,186 @@ func genGCScenario(r *c.Rng, idx int) c.Case {
 	return s.result(fmt.Sprintf("gen-gc-%d", idx))
 }
 
+// ---------------------------------------------------------------- key-derivation stress (GroupCache / LocalCache)
+//
+// Aimed at lossy key derivations: any function of (e-mail, groups) that loses information - hashing
+// into shards, truncation, case folding, sorting or joining the wrong thing, separators - makes two
+// different questions share an entry, and the second asker gets a foreign answer.  So: many distinct
+// e-mails of varied shapes with DIFFERENT memberships all asking the same (permuted) group sets, each
+// twice, interleaved; and many near-identical group sets for one user.
+
+// emailPopulation returns n distinct e-mails (n <= ~180): shared prefixes and suffixes, one-byte
+// differences, case variants, same local part in different domains, lengths 1..45 (odd and even),
+// non-ASCII bytes, bare names.
+func emailPopulation(r *c.Rng, n int) []string {
+	var pool []string
+	for i := 0; i < 40; i++ {
+		pool = append(pool, fmt.Sprintf("user%04d@example.com", i))
+	}
+	for i := 0; i < 10; i++ {
+		pool = append(pool, fmt.Sprintf("u%d@example.com", i), fmt.Sprintf("%d@example.com", i))
+	}
+	locals := []string{"alice", "Alice", "ALICE", "alicE", "alice1", "alice2", "alicia", "alic", "ali", "al", "a",
+		"bob", "b0b", "bob.", "bob+x", "b.ob", "carol", "caro1", "carolcarolcarolcarolcarolcarolcarol", "\xc3\x9fig", "\xc4\xb0x"}
+	doms := []string{"example.com", "Example.com", "example.org", "example.co", "a.com", "b.com", "sub.example.com", ""}
+	for _, l := range locals {
+		for _, d := range doms {
+			if d == "" {
+				pool = append(pool, l)
+			} else {
+				pool = append(pool, l+"@"+d)
+			}
+		}
+	}
+	letters := "abcdefghijklmnopqrstuvwxyzABCXYZ0123456789._-@"
+	for i := 0; i < 24; i++ {
+		b := make([]byte, 1+r.Intn(30))
+		for j := range b {
+			b[j] = letters[r.Intn(len(letters))]
+		}
+		pool = append(pool, string(b))
+	}
+	seen := map[string]bool{}
+	var uniq []string
+	for _, e := range pool {
+		if !seen[e] {
+			seen[e] = true
+			uniq = append(uniq, e)
+		}
+	}
+	r.Shuffle(len(uniq), func(i, j int) { uniq[i], uniq[j] = uniq[j], uniq[i] })
+	if n > len(uniq) {
+		n = len(uniq)
+	}
+	return uniq[:n]
+}
+
+// group names that stay inside the guard of C17_key_sound (no ',', not empty) but are easy to
+// confuse under folding, truncation or a different separator
+var trickyGroups = []string{"eng", "Eng", "ENG", "en", "eng-core", "engineering", "ops", "op", "sec", "sec ", "a b", "a;b", "a", "b", "x:y", "x|y", "x/y", "ab"}
+
+func shuffled(r *c.Rng, l []string) []string {
+	o := append([]string{}, l...)
+	r.Shuffle(len(o), func(i, j int) { o[i], o[j] = o[j], o[i] })
+	return o
+}
+
+func pickDistinct(r *c.Rng, pool []string, n int) []string {
+	return shuffled(r, pool)[:n]
+}
+
+type gcQ struct {
+	u  string
+	gs []string
+}
+
+// run a list of questions against a fresh GroupCache; every user's answer is her own membership
+func runGCQuestions(label string, r *c.Rng, ttl time.Duration, univ []string, member map[string]map[string]bool, qs []gcQ, errRate float64) c.Case {
+	s := newScen(2, false, ttl, univ)
+	defer s.close()
+	for _, q := range qs {
+		if s.hung {
+			break
+		}
+		sorted := append([]string{}, q.gs...)
+		sort.Strings(sorted)
+		ans := []string{}
+		for _, g := range sorted {
+			if member[q.u][g] && !has(ans, g) {
+				ans = append(ans, g)
+			}
+		}
+		d := dirAns{Groups: ans}
+		if r.Chance(errRate) {
+			d = dirAns{Err: true}
+		}
+		s.exec(cmd{Op: "gcask", U: q.u, TU: q.u, Gs: q.gs, Dir: d})
+	}
+	s.finish()
+	return s.result(label)
+}
+
+func randomMembership(r *c.Rng, us []string, gs []string) map[string]map[string]bool {
+	m := map[string]map[string]bool{}
+	for i, u := range us {
+		m[u] = map[string]bool{}
+		for j, g := range gs {
+			// neighbours in the population differ; about half of the groups each
+			if r.Chance(0.5) != ((i+j)%7 == 0) {
+				m[u][g] = true
+			}
+		}
+	}
+	return m
+}
+
+// many users, same (permuted) group sets, each user twice per set, interleaved
+func genGCPopulation(r *c.Rng, label string, nUsers int) c.Case {
+	us := emailPopulation(r, nUsers)
+	nSets := 1
+	if r.Chance(0.3) {
+		nSets = 2
+	}
+	gpool := pickDistinct(r, trickyGroups, 5+r.Intn(3))
+	member := randomMembership(r, us, gpool)
+	var qs []gcQ
+	for k := 0; k < nSets; k++ {
+		base := pickDistinct(r, gpool, 1+r.Intn(4))
+		for _, u := range us {
+			qs = append(qs, gcQ{u, shuffled(r, base)}, gcQ{u, shuffled(r, base)})
+		}
+	}
+	r.Shuffle(len(qs), func(i, j int) { qs[i], qs[j] = qs[j], qs[i] })
+	ttl := time.Hour
+	if r.Chance(0.25) {
+		ttl = 0
+	}
+	return runGCQuestions(label, r, ttl, gpool, member, qs, 0.03)
+}
+
+// one or two users, many near-identical group sets (one group replaced, dropped or added, reordered,
+// repeated), each asked twice (the second time permuted), interleaved
+func genGCManySets(r *c.Rng, label string) c.Case {
+	us := emailPopulation(r, 1+r.Intn(2))
+	gpool := pickDistinct(r, trickyGroups, 8+r.Intn(6))
+	member := randomMembership(r, us, gpool)
+	base := pickDistinct(r, gpool, 3)
+	sets := [][]string{base, {}, {base[0]}, {base[1]}, {base[2]}, {base[0], base[1]}, {base[1], base[2]}, {base[0], base[2]},
+		{base[0], base[0]}, {base[0], base[1], base[0]}}
+	for _, g := range gpool {
+		if !has(base, g) {
+			sets = append(sets, append(append([]string{}, base...), g)) // superset by one
+			for i := range base {                                       // one group replaced
+				v := append([]string{}, base...)
+				v[i] = g
+				sets = append(sets, v)
+			}
+		}
+	}
+	sets = shuffledSets(r, sets)
+	if len(sets) > 40 {
+		sets = sets[:40]
+	}
+	var qs []gcQ
+	for _, u := range us {
+		for _, st := range sets {
+			qs = append(qs, gcQ{u, shuffled(r, st)}, gcQ{u, shuffled(r, st)})
+		}
+	}
+	r.Shuffle(len(qs), func(i, j int) { qs[i], qs[j] = qs[j], qs[i] })
+	ttl := time.Hour
+	if r.Chance(0.25) {
+		ttl = 0
+	}
+	return runGCQuestions(label, r, ttl, gpool, member, qs, 0.03)
+}
+
+func shuffledSets(r *c.Rng, l [][]string) [][]string {
+	o := append([][]string{}, l...)
+	r.Shuffle(len(o), func(i, j int) { o[i], o[j] = o[j], o[i] })
+	return o
+}
+
 // ---------------------------------------------------------------- corpus
 
 func ok(ms ...string) fillAns {
@@ -1078,6 +1258,12 @@ func main() {
 	providers.VerifSetHTTPTransport(memTransport{http.HandlerFunc(userInfo)})
 	r := c.NewRng(a.Seed)
 	cases := corpus()
+	// key-derivation stress is part of every run, whatever --n is: two fixed populations (stable across
+	// seeds) and two drawn from this run's seed
+	fixed := c.NewRng(17)
+	cases = append(cases, genGCPopulation(fixed, "corpus-gc-population-a", 96), genGCPopulation(fixed, "corpus-gc-population-b", 128),
+		genGCManySets(fixed, "corpus-gc-manysets"))
+	cases = append(cases, genGCPopulation(r, "seeded-gc-population", 80), genGCManySets(r, "seeded-gc-manysets"))
 	isHung := func(cs c.Case) bool {
 		m, ok := cs.JSON.(map[string]interface{})
 		return ok && m["hung"] == true
@@ -1085,9 +1271,14 @@ func main() {
 	nHung := 0
 	for i := 0; i < a.N && nHung < 5; i++ { // a few hangs are evidence enough; do not wait out hundreds of deadlines
 		var cs c.Case
-		if i%4 == 3 {
+		switch {
+		case i%16 == 7: // many users with different memberships, same questions
+			cs = genGCPopulation(r, fmt.Sprintf("gen-gc-population-%d", i), 64+r.Intn(40))
+		case i%16 == 15: // many near-identical questions of one user
+			cs = genGCManySets(r, fmt.Sprintf("gen-gc-manysets-%d", i))
+		case i%4 == 3:
 			cs = genGCScenario(r, i)
-		} else {
+		default:
 			cs = genFillScenario(r, i)
 		}
 		if isHung(cs) {
